@@ -107,6 +107,90 @@ def writes_in(fn: FuncInfo, aliases: Dict[str, Tuple[str, str]]):
     return out
 
 
+def local_aliases(f: FuncInfo, base: Dict[str, Tuple[str, str]]) -> Dict[str, Tuple[str, str]]:
+    """Aliases visible in f: `base` plus local names bound to (copies of) the table or to one of its inner dicts."""
+    loc = dict(base)
+    for n in body_walk(f.node):
+        if isinstance(n, ast.Assign):
+            for t in n.targets:
+                if isinstance(t, ast.Name):
+                    cd = copy_depth(n.value, loc)
+                    if cd is not None:
+                        loc[t.id] = cd
+                    else:
+                        sh = inner_share_of_value(n.value, loc)
+                        if sh is not None:
+                            # x = alias[k] / alias.get(k): x IS an inner dict
+                            loc[t.id] = (sh, "leaf")
+        if isinstance(n, (ast.For, ast.comprehension)):
+            it = n.iter
+            if isinstance(it, ast.Call) and isinstance(it.func, ast.Attribute) and it.func.attr in ("items", "values") and dotted(it.func.value) in loc:
+                sh = loc[dotted(it.func.value)][1]
+                tv = None
+                if it.func.attr == "values" and isinstance(n.target, ast.Name):
+                    tv = n.target.id
+                if it.func.attr == "items" and isinstance(n.target, ast.Tuple) and len(n.target.elts) == 2 and isinstance(n.target.elts[1], ast.Name):
+                    tv = n.target.elts[1].id
+                if tv and sh != "leaf":
+                    loc[tv] = (sh, "leaf")
+    return loc
+
+
+def inner_share_of_value(v: ast.AST, loc: Dict[str, Tuple[str, str]]) -> Optional[str]:
+    """If the expression `v` evaluates to one of an alias's INNER dicts (not a copy of it), that dict's sharing."""
+    if isinstance(v, ast.Subscript) and dotted(v.value) in loc and loc[dotted(v.value)][1] != "leaf":
+        return loc[dotted(v.value)][1]
+    if isinstance(v, ast.Call) and isinstance(v.func, ast.Attribute) and v.func.attr in ("get", "setdefault", "pop", "__getitem__") and dotted(v.func.value) in loc and loc[dotted(v.func.value)][1] != "leaf":
+        return loc[dotted(v.func.value)][1]
+    if isinstance(v, ast.Name) and v.id in loc and loc[v.id][1] == "leaf":
+        return loc[v.id][0]
+    if isinstance(v, ast.IfExp):
+        a, b = inner_share_of_value(v.body, loc), inner_share_of_value(v.orelse, loc)
+        return SHARED if SHARED in (a, b) else (a or b)
+    if isinstance(v, ast.BoolOp):
+        xs = [inner_share_of_value(x, loc) for x in v.values]
+        return SHARED if SHARED in xs else next((x for x in xs if x), None)
+    return None
+
+
+def inner_taints(f: FuncInfo, loc: Dict[str, Tuple[str, str]]):
+    """(alias, share, node, text): stores that put an existing inner dict INTO the outer level of an alias.  After
+    such a store the alias's inner level is (at least partly) that dict: a later inner write reaches it."""
+    out = []
+    for n in body_walk(f.node):
+        if isinstance(n, (ast.Assign, ast.AnnAssign)) and n.value is not None:
+            for t in store_targets(n):
+                if isinstance(t, ast.Subscript) and dotted(t.value) in loc and loc[dotted(t.value)][1] != "leaf":
+                    sh = inner_share_of_value(n.value, loc)
+                    if sh is not None:
+                        out.append((dotted(t.value), sh, n, src(n)))
+        if isinstance(n, ast.Call) and isinstance(n.func, ast.Attribute) and dotted(n.func.value) in loc and loc[dotted(n.func.value)][1] != "leaf":
+            d = dotted(n.func.value)
+            vals: List[ast.AST] = []
+            whole: List[ast.AST] = []
+            if n.func.attr == "setdefault" and len(n.args) == 2:
+                vals.append(n.args[1])
+            if n.func.attr == "update":
+                for a in n.args:
+                    if isinstance(a, ast.Dict):
+                        vals.extend(x for k, x in zip(a.keys, a.values) if k is not None)
+                        whole.extend(x for k, x in zip(a.keys, a.values) if k is None)
+                    else:
+                        whole.append(a)
+                vals.extend(k.value for k in n.keywords if k.arg is not None)
+                whole.extend(k.value for k in n.keywords if k.arg is None)
+            for v in vals:
+                sh = inner_share_of_value(v, loc)
+                if sh is not None:
+                    out.append((d, sh, n, src(n)))
+            for w in whole:
+                # alias.update(other_table): the inner dicts of other_table become inner dicts of alias
+                cd = copy_depth(w, loc)
+                if cd is not None and cd[1] != FRESH:
+                    out.append((d, cd[1], n, src(n)))
+    return out
+
+
 def run(rep: Report, tier: str):
     repo = load_repo()
     rep.explanation = (
@@ -162,6 +246,7 @@ def run(rep: Report, tier: str):
                     cls_life[f"self.{attr}"] = "class"
             # instance attributes assigned in any method
             inst: Dict[str, Tuple[str, str]] = {}
+            tainted: Dict[str, tuple] = {}
             for name, fs in c.methods.items():
                 for f in fs:
                     for n in body_walk(f.node):
@@ -175,30 +260,31 @@ def run(rep: Report, tier: str):
                                         cls_life[d] = "instance"
                                         rep.ok("C11.no-write-through", f.qualname, f"alias {d} = {src(n.value)} -> outer {cd[0]}, inner {cd[1]}", f"{f.file}:{n.lineno}")
             allal = {**cls_aliases, **inst}
+            # stores that put a shared inner dict into a (fresh) instance-level table make that table's inner level shared
+            for name, fs in c.methods.items():
+                for f in fs:
+                    for alias, sh, node, text in inner_taints(f, local_aliases(f, allal)):
+                        if alias in allal and sh in (SHARED, "class-shared") and allal[alias][1] == FRESH:
+                            allal[alias] = (allal[alias][0], sh)
+                            tainted[alias] = (f, node, text)
             for name, fs in c.methods.items():
                 for f in fs:
                     # local aliases
-                    loc = dict(allal)
-                    for n in body_walk(f.node):
-                        if isinstance(n, ast.Assign):
-                            for t in n.targets:
-                                if isinstance(t, ast.Name):
-                                    cd = copy_depth(n.value, loc)
-                                    if cd is not None:
-                                        loc[t.id] = cd
-                                    elif isinstance(n.value, ast.Subscript) and dotted(n.value.value) in loc:
-                                        # x = alias[k]  -> x is an inner dict
-                                        loc[t.id] = (loc[dotted(n.value.value)][1], "leaf")
+                    loc = local_aliases(f, allal)
                     for depth, alias, node, text in writes_in(f, loc):
                         n_writes += 1
                         share = loc[alias][0] if depth == "outer" else loc[alias][1]
                         if share in (SHARED, "class-shared"):
                             what = "the built-in ML_ALLOWLIST" if share == SHARED else "an allowlist object shared by all unpickler instances (class attribute)"
+                            how = f"alias created with a {'shallow' if loc[alias][0] == FRESH else 'non-'}copy"
+                            if alias in tainted and depth == "inner":
+                                tf, tn, tt = tainted[alias]
+                                how = f"`{tt}` at {tf.file}:{tn.lineno} stores one of the built-in table's own inner dicts into it"
                             rep.bad(
                                 "C11.no-write-through",
                                 f.qualname,
                                 f"{depth}-write-to-{share}:{alias}",
-                                f"`{text}` writes the {depth} level of `{alias}`, which is {what} (alias created with a {'shallow' if loc[alias][0] == FRESH else 'non-'}copy): the addition outlives this unpickler / activation and is also seen by the MLAllowlist analysis",
+                                f"`{text}` writes the {depth} level of `{alias}`, which is {what} ({how}): the addition outlives this unpickler / activation and is also seen by the MLAllowlist analysis",
                                 f.file,
                                 node.lineno,
                             )
@@ -206,14 +292,10 @@ def run(rep: Report, tier: str):
                             rep.ok("C11.no-write-through", f.qualname, f"`{text}` writes a per-instance {depth} dict", f"{f.file}:{node.lineno}")
         # module-level functions
         for f in m.functions.values():
-            loc = dict(mod_aliases)
-            for n in body_walk(f.node):
-                if isinstance(n, ast.Assign):
-                    for t in n.targets:
-                        if isinstance(t, ast.Name):
-                            cd = copy_depth(n.value, loc)
-                            if cd is not None:
-                                loc[t.id] = cd
+            loc = local_aliases(f, mod_aliases)
+            for alias, sh, node, text in inner_taints(f, loc):
+                if sh == SHARED and loc[alias][1] == FRESH:
+                    loc[alias] = (loc[alias][0], SHARED)
             for depth, alias, node, text in writes_in(f, loc):
                 n_writes += 1
                 share = loc[alias][0] if depth == "outer" else loc[alias][1]
